@@ -222,15 +222,40 @@ def vin(val, lo, hi):
     return And(z3.UGE(val, lo), z3.ULE(val, hi))
 
 
+def attdefault_scope(g):
+    """read from info::XmlDocumentTypeDeclaration::node: is the new DOCTYPE item pushed into the document BEFORE the
+    loop over the internal subset ("declared-before": a default value may refer to entities declared earlier in the
+    subset) or only by the caller afterwards ("predefined": Context::entity finds no DOCTYPE yet)?"""
+    import json as _json
+    fns = g.dump.methods.get((INFO_FILE, "XmlDocumentTypeDeclaration", "node"), [])
+    if len(fns) != 1:
+        raise nomsem.Unsupported("XmlDocumentTypeDeclaration::node not found")
+    g.used_fns[(INFO_FILE, "XmlDocumentTypeDeclaration::node")] = g.dump.fn_hash(fns[0])
+    seen_loop = False
+    for st in fns[0]["body"]["stmts"]:
+        e = st.get("e") or st.get("init") or {}
+        if st["k"] == "expr" and e.get("k") == "for":
+            seen_loop = True
+            break
+        t = _json.dumps(e)
+        if '"push_child"' in t and '"document"' in t:
+            return "declared-before"
+    if not seen_loop:
+        raise nomsem.Unsupported("XmlDocumentTypeDeclaration::node: no loop over the internal subset")
+    return "predefined"
+
+
 class Impl:
     """xml_parser::document + the info-level reject rules, over one Input"""
 
-    def __init__(self, inp, g=None, declared=None):
+    def __init__(self, inp, g=None, declared=None, declared_before_attlist=None):
         self.g = g or grammar()
         self.inp = inp
         self.run = nomsem.Run(self.g, inp)
         self.doc = self.g.production("document", GRAMMAR_FILES[0])
         self.declared = declared
+        # entities whose declaration precedes the ATTLIST declarations of the document (templates put them first)
+        self.declared_before_attlist = declared if declared_before_attlist is None else declared_before_attlist
         self._locate()
 
     def _locate(self):
@@ -279,6 +304,11 @@ class Impl:
                 raise nomsem.Unsupported("no grammar site builds parser::%s::%s (arm in %s)" % (enum, variant, fname))
             for n in vs:
                 (self.reject_sites if action == "reject" else self.panic_sites).append((n, "%s::%s in %s:%s" % (enum, variant, fname, line)))
+        # default values of ATTLIST declarations are resolved while the DOCTYPE item is being built
+        self.n_default_decl = active.find_nodes(g, g.production("att_def", f), lambda n: is_ref_to(n, "default_decl"))
+        if not self.n_default_decl:
+            raise nomsem.Unsupported("att_def does not use default_decl")
+        self.attdefault_scope = attdefault_scope(g)
         nm = active.find_nodes(g, self.p_entity_ref, lambda n: is_ref_to(n, "name"))
         if len(nm) != 1:
             raise nomsem.Unsupported("entity_ref shape")
@@ -363,6 +393,21 @@ class Impl:
                         if nid2 == dn.id:
                             for e, ce in self.run.ends(n2, q).items():
                                 conds.append(sym.Implies(And(a2, ce), self.charref_ok(q, e - q, radix)))
+        # ATTLIST defaults: Context::entity sees the DOCTYPE's own declarations only if the DOCTYPE item is attached to
+        # the document before its internal subset is walked (then: the declarations that precede the ATTLIST)
+        for dn in self.n_default_decl:
+            for (nid, p), (node, a) in list(act.items()):
+                if nid != dn.id:
+                    continue
+                sub = active.activation_from(self.run, dn, p, a)
+                for (nid2, q), (n2, a2) in sub.items():
+                    if nid2 == self.n_entname.id:
+                        names = list(PREDEFINED)
+                        if self.attdefault_scope == "declared-before":
+                            names += list(self.declared_before_attlist or [])
+                        for e, ce in self.run.ends(n2, q).items():
+                            okn = Or(*[self._is_word(q, e - q, w) for w in names])
+                            conds.append(sym.Implies(And(a2, ce), okn))
         return And(*conds)
 
     def _is_word(self, i, m, w):
